@@ -34,19 +34,28 @@ def r1_negotiation(ctx):
             f_e += c.edges_for(False)
     ws = calls_norm(body, "AsyncWriteExt::write_all")
     sel = {}
+    chosen = {}     # method value -> blocks where it is chosen, when one write sends a method selected earlier (`let m = if .. {0} else {0xFF}`)
     for w in ws:
         t = o.of_operand(w.args[1])
         if isinstance(t, tuple) and t[0] == "agg" and len(t[3]) == 2:
+            m = t[3][1]
+            if isinstance(m, tuple) and m[0] == "phi" and const_value(t[3][0]) == 5:
+                for alt, bi in o.phi_sites.get(m, []):
+                    if const_value(alt) is not None:
+                        sel[(5, const_value(alt))] = w
+                        chosen.setdefault(const_value(alt), []).append(bi)
+                continue
             sel[(const_value(t[3][0]), const_value(t[3][1]))] = w
     ok_ver = bool(ver_ok_edges) and all(cfg.edges_dominate(ver_ok_edges, w.bb) for w in ws)
     ctx.ob("R16.1", "authenticate:version-checked-first", ok_ver, "", "every reply is dominated by the version == 5 edge" if ok_ver else "the greeting's version byte is not checked before answering")
     a = sel.get((5, 0))
     r = sel.get((5, 255))
-    oka = a is not None and bool(t_e) and cfg.edges_dominate(t_e, a.bb)
+    oka = a is not None and bool(t_e) and all(cfg.edges_dominate(t_e, b_) for b_ in chosen.get(0, [a.bb]))
     ctx.ob("R16.1", "authenticate:no-auth-selected-iff-offered", oka, a.site if a else "", "[5,0] is written on the true edge of methods.contains(0)" if oka else "'no authentication' can be selected although it was not offered (or is never selected)")
-    okr = r is not None and bool(f_e) and cfg.edges_dominate(f_e, r.bb)
+    okr = r is not None and bool(f_e) and all(cfg.edges_dominate(f_e, b_) for b_ in chosen.get(255, [r.bb]))
     ok_rets = [bi for kind, bi, si, rv in body.defs().get(0, []) if kind == "assign" and rv["r"] == "aggregate" and rv["kind"].get("variant") == "Ok"]
-    refuse_region = cfg.reach([e[1] for e in f_e])
+    # what can follow a 'not offered' outcome: the same (immutable) test evaluated again later takes the same side
+    refuse_region = cfg.reach([e[1] for e in f_e], avoid_edges=t_e)
     okr = okr and not [b for b in ok_rets if b in refuse_region]
     ctx.ob("R16.1", "authenticate:refuses-otherwise", okr, r.site if r else "", "[5,0xFF] is written on the false edge and the function fails" if okr else "a greeting without 'no authentication' is not refused with [5,0xFF] + error")
     # methods buffer: nmethods bytes
